@@ -19,7 +19,8 @@ EXPLANATION = (
     "FormatTriviaType::Append/Replace or TokenReference::new only through format_token / load_token_trivia / a "
     "format_* helper - otherwise a line comment of a CRLF file keeps its carriage return. Not decided: 'exactly one line "
     "ending at EOF' beyond the shape; raw nodes returned whole by a formatter (the rule judges token collections, not "
-    "nodes rebuilt with with_*()).")
+    "nodes rebuilt with with_*())."
+    "Later rounds: (R-BUILDER) a `to_owned().with_*()` chain over a cloned input node replaces every field of the struct (fields from the ADT facts).")
 ASSUMPTIONS = ["full_moon::TokenType::spaces/tabs produce exactly n spaces / tabs",
                "rustc MIR and Instance::try_resolve are trusted"]
 
